@@ -12,7 +12,8 @@ from props import C10 as C10mod
 
 GROUP = "Diag"
 THEOREMS = ["C12_observer_transparent", "C12_trace_transparent", "C12_profile_transparent",
-            "C12_debug_signal_not_caught", "C12_debug_continue_partial", "C12_debug_old_refuted"]
+            "C12_debug_signal_not_caught", "C12_debug_continue_partial", "C12_debug_old_refuted",
+            "C12_debug_continue_whole_run", "C12_debug_continue_observables"]
 META = {
     "group": "Diag",
     "technique": "Coq proofs over the MiniEgo VM model with an observer hooked into the dispatch loop and a debugger "
@@ -23,14 +24,17 @@ META = {
             "C12_profile_transparent) is proved for all programs and fuels. Debugger: the line signal used to be caught by "
             "an active try/catch (C12_debug_old_refuted, confirmed on the binary: a try body was abandoned under --debug "
             "with only `continue`); repaired by 6274accc; a second defect found by the differential run (an unrecovered panic made `ego run --debug` exit 0 without the error line) repaired by 63d30ac1; over the repaired model C12_debug_signal_not_caught (the catch "
-            "layer passes the signal for every context) and C12_debug_continue_partial (a stop at a line returns with "
-            "exactly the state the plain run continues from, and continue resumes there) are proved; the model's debug "
-            "loop and the real VM/binary under --debug are compared with the plain run on corpus + generated programs. "
-            "A scan lists every Context field written by profile.go/trace.go and every Context method the debugger calls "
-            "and checks it against the set assumed by the model. "
-            "partial: whole-run equality for the debug mode is checked by correspondence, not proved (needs the "
-            "simulation over all instructions); breakpoints, step commands, timing and the profile report itself are "
-            "not modelled",
+            "layer passes the signal for every context), C12_debug_continue_partial (a stop at a line returns with "
+            "exactly the state the plain run continues from) and the WHOLE-RUN equality C12_debug_continue_whole_run (for "
+            "every program, shared state, context and fuel the debugger-with-continue loop ends with the shared state, the "
+            "context up to the flag and the outcome of the plain run; C12_debug_continue_observables for the printed "
+            "markers + outcome class) are proved -- by induction over the dispatched instructions, the line marker being a "
+            "stuttering step and every other instruction of the model commuting with the flag (incl. nested deferred-call "
+            "runs, catch and panic unwinding); the model's debug loops and the real VM/binary under --debug are compared "
+            "with the plain run on corpus + generated programs. A scan lists every Context field written by "
+            "profile.go/trace.go and every Context method the debugger calls and checks it against the set assumed by "
+            "the model. partial: breakpoints, step commands, goroutines/locks (observed by the differential runs with a "
+            "hang detector), timing and the profile report itself are not modelled",
     "note": "Trusted: Coq kernel; coq/VM model tied by the C10 correspondence; harness/C10; lib/vm_util.py; the real ego "
             "binary's flags as found in internal/commands (run --trace/--profile/--debug).",
 }
@@ -374,6 +378,7 @@ def run(ck):
     ex = {}
     for k in range(len(terms)):
         ex["d%d" % k] = "run_program_debug 3000 30000 p%d" % k
+        ex["c%d" % k] = "run_program_debug_continue 30000 p%d" % k
         ex["t%d" % k] = ("let '(g, _, o, l) := run_with dev trace_obs 30000 p%d init_glob (init_ctx false) [] in "
                          "outcome_class o :: out_ints g" % k)
     okc, out = vf.coq_eval(GROUP, ck.work, "dcases", pre, ex, timeout=900, extra_q=("VM",))
@@ -382,7 +387,7 @@ def run(ck):
         return
     ck.cov["traces_validated_against_impl"] = len(terms)
     for k, (i, oa) in enumerate(idx):
-        for lab, key in (("debug loop", "d%d" % k), ("traced run", "t%d" % k)):
+        for lab, key in (("debug loop", "d%d" % k), ("fused debug/continue run", "c%d" % k), ("traced run", "t%d" % k)):
             if out[key] != oa:
                 ck.violation("corr-diag", "model %s and the real plain run disagree on %s: model %s real %s" % (
                     lab, names[i], out[key], oa), replay={"src": srcs[i], "model": out[key], "real": oa}, found_input=False)
